@@ -85,6 +85,10 @@ def intLen (s : St) : LenArg → Res Int
 
 def needCvar (s : St) : Res Unit := if s.cvar then .ok () else .oob
 
+/-- `ShroudStrCopy(c_var, n, str.data(), str.size())`: `size()` is a `size_t` passed for `int nsrc` -/
+def strCopyStd (f : Buf) (n : Nat) (str : List Nat) : Res Buf :=
+  strCopy f n (some (str ++ [NUL])) (narrow32 str.length)
+
 /-- one template line -/
 def exec (o : Op) (s : St) : Res St :=
   match o with
@@ -100,7 +104,7 @@ def exec (o : Op) (s : St) : Res St :=
     (strCopy s.f n s.cxxC (-1)).bind fun f => .ok { s with f := f }
   | .strCopyStd nd =>
     (needCvar s).bind fun _ => (natLen s nd).bind fun n =>
-    (strCopy s.f n (some (s.cxxS ++ [NUL])) (narrow32 s.cxxS.length)).bind fun f => .ok { s with f := f }
+    (strCopyStd s.f n s.cxxS).bind fun f => .ok { s with f := f }
   | .strCopyNull nd =>
     (needCvar s).bind fun _ => (natLen s nd).bind fun n =>
     (strCopy s.f n none 0).bind fun f => .ok { s with f := f }
